@@ -45,7 +45,9 @@ def jobs_for(tier):
                 for wl in (False, True):
                     js.append((s, ["--bound", "3", "--spurious", str(sp)] + (["--wake-locked"] if wl else []), 900))
             js.append((s, ["--bound", "4", "--spurious", "1"], 1800))
-            js.append((s, ["--unbounded", "--spurious", "1", "--max-branches", "1000000"], 1500))
+            if s != "stale_after_done":
+                # (three threads besides the executor: the unbounded search does not finish in 25 minutes; bound 4 does)
+                js.append((s, ["--unbounded", "--spurious", "1", "--max-branches", "1000000"], 1500))
     return js
 
 
